@@ -1102,6 +1102,21 @@ def existence_is_asked_function_wide(F, rep, rule="C10.guard"):
                                                % (sorted({mir.short(mir.strip_generics(x.callee())) for x in narrow}) or "no lookup")),
                                st.get("sp"), fn=g.path, key="%s|lookup-extent|%s" % (rule, sub))
     rep.floor(rule + " previous-binding results of the declaration parsers", n, 2)
+    # the counter of `from a to b, NAME`: whether NAME exists already decides between writing the variable in place (`store`: a closure that captured it
+    # sees the loop's assignments) and a throw-away cell (`store_fast` + `delete_name_scoped`).  Same extent: a loop inside an if / while block whose
+    # counter is a variable of the function body must find it.
+    NARROW = ("compiler::parser::AssocFileData::get_ident_from_name_local", "compiler::parser::AssocFileData::has_name_been_mapped_local")
+    nl = [g for g in F.crates["compiler"].fns if g.path.endswith("<impl compiler::parser::Parser>::number_loop")]
+    if len(nl) != 1:
+        raise AnchorMissing("Parser::number_loop")
+    bodies = [nl[0]] + F.closures_of(nl[0])
+    wide = [c for g in bodies for c in g.calls() if c.matches(WIDE)]
+    narrow = [(g, c) for g in bodies for c in g.calls() if c.matches(NARROW)]
+    rep.ob(rule, "number_loop: whether the counter's name exists already is asked of the whole function", "ok" if wide and not narrow else "violated",
+           "" if wide and not narrow else ("the lookup is %s: the counter of a loop that stands in an if / while / from block is taken for a new name although the function has "
+                                           "the variable - it gets a throw-away cell, a closure that captured the variable sees none of the loop's assignments, and the "
+                                           "variable reverts after the loop" % (sorted({mir.short(c.callee()) for _, c in narrow}) or "missing")),
+           (narrow[0][1].span if narrow else nl[0].span), fn=nl[0].path, key="%s|lookup-extent|number_loop" % rule)
 
 
 
